@@ -25,17 +25,21 @@
 (*         causes, an error of the type that reports an unknown step (the      *)
 (*         units parser's BadArgumentError for an unreadable quantity), the    *)
 (*         outcome class is "invalidinput", never "badarg".                    *)
-(* beh   = what the step handler returns: "ok" (declared id, conforming data   *)
-(*         whose in-memory form IS its serialized form), "okr" (declared id,   *)
-(*         conforming data in an in-memory representation that DIFFERS from    *)
-(*         its serialized form: int/uint8 for an integer, []string for a list, *)
-(*         a compiled pattern, a struct-mapped sub-object inside a map - the   *)
-(*         call must return the serialized form, whatever the Go type of the   *)
-(*         handler's value),                                                   *)
-(*         "ok2" (second declared id), "undeclared" (undeclared output id),    *)
-(*         "baddata" (declared id, data the output schema rejects - among them *)
-(*         nil data for an output all of whose properties are optional: the    *)
-(*         empty object would conform, nil does not).                          *)
+(* beh   = what the step handler returns: a pair (output ID class, data class), *)
+(*         the full product OutIdClasses \X OutDataClasses, named by BehTab.    *)
+(*         ID classes: "declared" (first declared ID), "declared2" (second      *)
+(*         declared ID), "undeclared" (an ID the step does not declare: an      *)
+(*         unknown name, a declared name in another letter case, the empty      *)
+(*         string).  Data classes: "conf" (conforming data whose in-memory form *)
+(*         IS its serialized form), "confr" (conforming data in an in-memory    *)
+(*         representation that DIFFERS from its serialized form: int/uint8 for  *)
+(*         an integer, []string for a list, a compiled pattern, a struct-mapped *)
+(*         sub-object inside a map - the call must return the serialized form), *)
+(*         "nonconf" (non-nil data the output schema rejects), "nil" (nil data, *)
+(*         untyped or a typed nil pointer / nil map the schema rejects - also   *)
+(*         for an output all of whose properties are optional: the empty        *)
+(*         object would conform, nil does not).  The ID is looked up first: an  *)
+(*         undeclared ID is an "invalidoutput" error WHATEVER the data is.      *)
 (*                                                                             *)
 (* One action per stage of the code:                                           *)
 (*   Begin -> Lookup -> UnserializeInput -> Setup (SetupHit | InitBegin,       *)
@@ -61,7 +65,21 @@ SigId == "sig"
 NoSig == "nosig"
 ValidInputs == {"va", "vb", "vd", "vl", "vs"}
 AllInputs == ValidInputs \cup {"inv"}
-Behs == {"ok", "ok2", "okr", "undeclared", "baddata"}
+OutIdClasses == {"declared", "declared2", "undeclared"}
+OutDataClasses == {"conf", "confr", "nonconf", "nil"}
+\* behaviour name, output ID class, data class
+BehTab == { <<"ok", "declared", "conf">>,          <<"okr", "declared", "confr">>,
+            <<"baddata", "declared", "nonconf">>,  <<"nildata", "declared", "nil">>,
+            <<"ok2", "declared2", "conf">>,        <<"ok2r", "declared2", "confr">>,
+            <<"baddata2", "declared2", "nonconf">>, <<"nildata2", "declared2", "nil">>,
+            <<"undeclared", "undeclared", "conf">>, <<"undeclaredr", "undeclared", "confr">>,
+            <<"undeclaredbad", "undeclared", "nonconf">>, <<"undeclarednil", "undeclared", "nil">> }
+Behs == {t[1] : t \in BehTab}
+BehId(b) == (CHOOSE t \in BehTab : t[1] = b)[2]
+BehData(b) == (CHOOSE t \in BehTab : t[1] = b)[3]
+ASSUME /\ {<<t[2], t[3]>> : t \in BehTab} = OutIdClasses \X OutDataClasses
+       /\ Cardinality(BehTab) = Cardinality(Behs)
+       /\ Cardinality(Behs) = Cardinality(OutIdClasses) * Cardinality(OutDataClasses)
 
 VARIABLES call,       \* proc -> call record (fixed by Init)
           pc,         \* proc -> control point
@@ -97,7 +115,9 @@ Valid(c) == StepKnown(c) /\ SigKnown(c) /\ Unser(c.input).ok
 
 NoRes == [class |-> "none", out |-> "", ser |-> "none"]
 Err(cl) == [class |-> cl, out |-> "", ser |-> "none"]
-OutId(b) == IF b = "ok2" THEN "error" ELSE "success"
+OutId(b) == IF BehId(b) = "declared2" THEN "error" ELSE "success"
+Declared(b) == BehId(b) \in {"declared", "declared2"}
+Conforms(b) == BehData(b) \in {"conf", "confr"}
 
 \* declarative reading of the property: the outcome of a call as a function of the call alone
 Expected(c) ==
@@ -105,9 +125,9 @@ Expected(c) ==
     ELSE IF ~SigKnown(c) THEN Err("error")
     ELSE IF ~Unser(c.input).ok THEN Err("invalidinput")
     ELSE IF IsSignal(c) THEN [class |-> "ok", out |-> "", ser |-> "none"]
-    ELSE CASE c.beh = "undeclared" -> Err("invalidoutput")
-           [] c.beh = "baddata"    -> Err("error")
-           [] OTHER -> [class |-> "ok", out |-> OutId(c.beh), ser |-> Native(c.input)]
+    ELSE IF ~Declared(c.beh) THEN Err("invalidoutput")     \* whatever the data, nil included
+    ELSE IF ~Conforms(c.beh) THEN Err("error")
+    ELSE [class |-> "ok", out |-> OutId(c.beh), ser |-> Native(c.input)]
 
 ---------------------------------------------------------------------------
 (* Initial state for a given call vector *)
@@ -218,10 +238,10 @@ HandlerReturn(p) ==
 CheckOutput(p) ==
     /\ pc[p] = "check"
     /\ LET b == call[p].beh IN
-       CASE b = "undeclared" -> Fail(p, "invalidoutput")
-         [] b = "baddata"    -> Fail(p, "error")
-         [] OTHER -> /\ Goto(p, "ret")
-                     /\ res' = [res EXCEPT ![p] = [class |-> "ok", out |-> OutId(b), ser |-> arg[p]]]
+       IF ~Declared(b) THEN Fail(p, "invalidoutput")           \* the ID lookup comes first
+       ELSE IF ~Conforms(b) THEN Fail(p, "error")             \* then the declared output's Validate
+       ELSE /\ Goto(p, "ret")
+            /\ res' = [res EXCEPT ![p] = [class |-> "ok", out |-> OutId(b), ser |-> arg[p]]]
     /\ UNCHANGED <<call, arg, mutex, created, stepData, initCount, ledger>>
 
 Return(p) ==
